@@ -39,7 +39,7 @@ def _timeline(p):
             "meas": p["meas"], "mode": p["mode"]}
 
 
-PARAM_OF = {"cpjt": "custom_phase_jump_time", "minDur": "min_duration", "locMinDur": "min_duration",
+PARAM_OF = {"bwLocalNone": "mod_bandwidth", "cpjt": "custom_phase_jump_time", "minDur": "min_duration", "locMinDur": "min_duration",
             "maxDur": "max_duration", "clock": "clock_period", "bw": "mod_bandwidth", "minRet": "min_retarget_interval",
             "fixRet": "fixed_retarget_t", "maxAmp": "max_amp", "maxDet": "max_abs_detuning", "minAvg": "min_avg_amp",
             "eom": "eom_config", "maxSeq": "max_sequence_duration", "level": "rydberg_level",
